@@ -170,6 +170,33 @@ def run_case(case):
                 b = Counter((gen.upair(e), t, i) for e, t, i in zip(*el_columns(el2)[:3]))
                 if a != b or el_columns(el2)[3] != cols0[3]:
                     res.violate("edge-list-round-trip-is-not-the-identity", missing=list(a - b)[:4], extra=list(b - a)[:4], ctx=ctx)
+    if res.verdict == "held" and cols0[0] and rng.random() < 0.4:
+        # history on ONE edge-list object: it is converted again after (a) the network from the first conversion was edited in
+        # place by its owner, or (b) the edge list itself was changed without changing its lengths; each conversion must answer for
+        # the edge list as it is at that moment
+        how = rng.choice(["first-network-edited", "topologies-renamed", "rows-replaced"])
+        from gcmpy import NetworkNames as NN
+        if how == "first-network-edited":
+            G1 = net.G
+            u, v = rng.choice(list(G1.edges()))
+            G1.remove_edge(u, v)
+            for a, b in list(G1.edges())[:3]:
+                G1.edges[a, b][NN.TOPOLOGY] = "edited-by-the-owner"
+        elif how == "topologies-renamed":
+            if rng.random() < 0.5:
+                el.topologies = [("renamed", t) for t in el.topologies]          # through the setter
+            else:
+                for i, t in enumerate(list(el.topologies)):                       # in place
+                    el.topologies[i] = ("renamed", t)
+        else:
+            # same number of rows, other pairs: every row's end points are redrawn among the vertices
+            Nv = len(el.joint_degrees)
+            for i in range(len(el.edge_list)):
+                el.edge_list[i] = (rng.randrange(Nv), rng.randrange(Nv))
+        res.count("second_conversions_of_one_edge_list_object")
+        res.seen("second_conversion_after", how)
+        net3 = sut("EdgeListToNetwork.convert (same edge-list object again)", gcmpy.EdgeListToNetwork.convert, el)
+        check_forward(res, el, net3, dict(ctx, history=["convert(el)", how, "convert(el)"], edge_list_now=list(el.edge_list)[:40]))
     res.nontrivial = (zero or rep or loop) and len(cols0[0]) >= 2
     res.digest = digest(cols0)
     res.sample = {"jds": jds[:30], "edge_list": cols0[0][:30], "topologies": cols0[1][:30], "motif_id": cols0[2][:30]}
